@@ -445,7 +445,7 @@ func c05Gen(g *G) {
 		}
 	}
 	// refused lengths
-	for _, l := range []int{0, 1, 15, 17, 31, 33, 47, 63, 65, 255, 257, 1023, 1025} {
+	for _, l := range []int{0, 1, 8, 15, 17, 24, 31, 33, 40, 47, 63, 65, 72, 255, 257, 1023, 1025, 1032} {
 		key, iv := r.Bytes(32), r.Bytes(32)
 		g.Emit(fmt.Sprintf("c05.enc %s %s %s", c05Tok(key), c05Tok(iv), c05Tok(r.Bytes(l))), "refused")
 		g.Emit(fmt.Sprintf("c05.dec %s %s %s", c05Tok(key), c05Tok(iv), c05Tok(r.Bytes(l))), "refused")
